@@ -116,7 +116,10 @@ func famRegs3(r *rng) []string {
 		"for min = 2 { print(1) }; println(sv(catch(min(3, 4))))",
 		"func ri(int){ int }; println(sv(catch(ri(3))), sv(catch(int(2.5))))",
 		"func rn(a, self, b){ for j = b { a = a + j }; [a, b] }; println(rn(1, 2, 3))",
-		"for abs = 2 { for max = 2 { print(1) } }; println(sv(catch(abs(-2))))"))
+		"for abs = 2 { for max = 2 { print(1) } }; println(sv(catch(abs(-2))))",
+		// the name of the function being run (repo fix 0f85325)
+		"func fo(){ for fo = 3 { print(len(sv(catch(fo + 1)))) }; 1 }; println(fo())",
+		"func fp(n){ s = 0; for fp = n { s = s + 1 }; s }; println(fp(3), fp(2))"))
 	// a long session of top-level loops: every exit, more than 8 in a row, one input each or all in one
 	nl := 20 + r.intn(31)
 	var loops []string
